@@ -51,6 +51,8 @@ def mode_all(p):
         C, D, R = rs.randint(1, 4), rs.randint(1, 4), rs.randint(1, 3)
         m = mk_iv(seed, C, D, R)
         s = mk_stats(rs, C, D)
+        if seed % 3 == 2:
+            s.t = 0          # counts and sums filled in by hand (init_fields / an external front-end): the frame counter plays no role in the posterior
         w = m.project(s)
         A = np.eye(R)
         b = np.zeros(R)
